@@ -21,6 +21,7 @@ type PropConfig struct {
 	SweepPkgs []string `json:"sweep_pkgs"` // package dirs whose every function is swept
 	NotCovered []string `json:"not_covered"`
 	Bounded   []string `json:"bounded"`
+	TrivialLoopInvariants bool `json:"trivial_loop_invariants"`
 }
 
 type PropsFile struct {
@@ -232,6 +233,7 @@ func cmdCheck(args []string) int {
 			Coverage: map[string]any{"obligations": 0, "discharged": 0, "checker_cmd": "bin/hvc check --property " + *prop, "trusted_base": []string{}, "explanation": "load failed"}})
 		return 1
 	}
+	e.sweepLoops = pc.TrivialLoopInvariants
 	// functions of the property
 	funcSet := map[string]bool{}
 	for key, sp := range e.funcSpecs {
@@ -252,8 +254,8 @@ func cmdCheck(args []string) int {
 	}
 	for _, dir := range pc.SweepPkgs {
 		for k, fn := range e.funcs {
-			if fn.Pkg != nil && e.byPath[fn.Pkg.Pkg.Path()] != nil && e.byPath[fn.Pkg.Pkg.Path()].Dir == dir && fn.Parent() == nil {
-				if strings.HasSuffix(e.fileOf(fn), "_test.go") || strings.HasSuffix(e.fileOf(fn), "testing.go") {
+			if fn.Pkg != nil && e.byPath[fn.Pkg.Pkg.Path()] != nil && e.byPath[fn.Pkg.Pkg.Path()].Dir == dir {
+				if strings.HasSuffix(e.fileOf(fn), "_test.go") || strings.HasSuffix(e.fileOf(fn), "testing.go") || fn.Synthetic != "" || e.fileOf(fn) == "" {
 					continue
 				}
 				if !funcSet[k] {
